@@ -972,6 +972,22 @@ func unop(fr *frame, instr *ssa.UnOp, x value) value {
 func typeAssert(i *interpreter, instr *ssa.TypeAssert, itf iface) value {
 	var v value
 	err := ""
+	if instr.CommaOk {
+		// fast path (type switches): no message is needed on failure
+		if itf.t == nil {
+			return tuple{zero(instr.AssertedType), false}
+		}
+		if idst, ok := instr.AssertedType.Underlying().(*types.Interface); ok {
+			if checkInterface(i, idst, itf) != "" {
+				return tuple{zero(instr.AssertedType), false}
+			}
+			return tuple{itf, true}
+		}
+		if itf.t == instr.AssertedType || types.Identical(itf.t, instr.AssertedType) {
+			return tuple{itf.v, true}
+		}
+		return tuple{zero(instr.AssertedType), false}
+	}
 	if itf.t == nil {
 		err = fmt.Sprintf("interface conversion: interface is nil, not %s", instr.AssertedType)
 
